@@ -496,11 +496,14 @@ class Interp(Engine):
             return None, None
         if c is None:
             return k, None
-        sp = c.loops.get(k)
+        prefix = getattr(f, "loop_prefix", None)
+        sp = c.loops.get((prefix, k) if prefix else k)
+        if prefix:
+            k = "%s.%d" % (prefix, k)
         if sp is not None and sp.fingerprint is not None:
             fp = extract.loop_fingerprint(node)
             if fp != extract.normalize_fingerprint(sp.fingerprint):
-                raise Unsupported("loop %d fingerprint changed (%r vs contract %r): contract needs maintenance" % (k, fp, sp.fingerprint))
+                raise Unsupported("loop %s fingerprint changed (%r vs contract %r): contract needs maintenance" % (k, fp, sp.fingerprint))
         return k, sp
 
     def inv_env(self, f, extra):
@@ -604,6 +607,17 @@ class Interp(Engine):
             assigned |= extract.assigned_names([ast.Expr(node.test)])
         used = extract.names_used(body + ([node.test] if isinstance(node, ast.While) else [node.iter]))
         mutated_names = _maybe_mutated_names(body + ([ast.Expr(node.test)] if isinstance(node, ast.While) else []))
+        # nested functions called in the loop mutate what their own bodies mutate (captured variables of this frame)
+        for c in [x for b in body for x in ast.walk(b)]:
+            if isinstance(c, ast.Call) and isinstance(c.func, ast.Name):
+                try:
+                    callee = f.lookup(c.func.id)
+                except PyRaise:
+                    continue
+                if isinstance(callee, Closure):
+                    inner = _maybe_mutated_names(callee.node.body)
+                    mutated_names |= inner
+                    used |= inner
         for nm in sorted(assigned):
             if nm in f.vars:
                 f.vars[nm] = self.havoc_value(nm, f.vars[nm], spec)
@@ -633,7 +647,7 @@ class Interp(Engine):
         if spec is None or spec.invariant is None:
             return self.unrolled_while(s, f, spec)
         ln = s.lineno
-        self.prove(call_by_names(spec.invariant, self.inv_env(f, {})), "loop%d-entry" % k, ln)
+        self.prove(call_by_names(spec.invariant, self.inv_env(f, {})), "loop%s-entry" % k, ln)
         self.cut_prepare(s, f, spec)
         for _, e in conjuncts(call_by_names(spec.invariant, self.inv_env(f, {}))):
             self.run.pc.append(e)
@@ -643,17 +657,17 @@ class Interp(Engine):
         c = self.eval(s.test, f)
         if self.test(c):
             if m0 is not None:
-                self.prove(_ie(m0) >= 0, "loop%d-variant-bounded" % k, ln)
+                self.prove(_ie(m0) >= 0, "loop%s-variant-bounded" % k, ln)
             try:
                 self.exec_block(s.body, f)
             except ContinueEx:
                 pass
             except BreakEx:
                 return
-            self.prove(call_by_names(spec.invariant, self.inv_env(f, {})), "loop%d-preserve" % k, ln)
+            self.prove(call_by_names(spec.invariant, self.inv_env(f, {})), "loop%s-preserve" % k, ln)
             if m0 is not None:
                 m1 = call_by_names(spec.decreases, self.inv_env(f, {}))
-                self.prove(_ie(m1) < _ie(m0), "loop%d-decreases" % k, ln)
+                self.prove(_ie(m1) < _ie(m0), "loop%s-decreases" % k, ln)
             raise PathEnd("loop body closed")
         else:
             self.exec_block(s.orelse, f)
@@ -774,7 +788,7 @@ class Interp(Engine):
                 # a loop variable that is unbound before the loop: give it an arbitrary value so that the
                 # invariant (which must not depend on it for _k == 0) can be evaluated
                 f.vars[nm] = self.havoc_value(nm, None, spec)
-        self.prove(call_by_names(spec.invariant, self.inv_env(f, {"_k": gk})), "loop%d-entry" % k, ln)
+        self.prove(call_by_names(spec.invariant, self.inv_env(f, {"_k": gk})), "loop%s-entry" % k, ln)
         self.cut_prepare(s, f, spec, extract.assigned_names([ast.Assign(targets=[s.target], value=ast.Constant(0))]))
         if shared is not None:
             self.havoc_heap(shared, "it", True)
@@ -786,7 +800,7 @@ class Interp(Engine):
         # loop targets are undefined/havocked at the head; the invariant must not depend on them
         for _, e in conjuncts(call_by_names(spec.invariant, self.inv_env(f, {"_k": kk}))):
             self.run.pc.append(e)
-        f.vars["_k%d" % k] = kk
+        f.vars["_k%s" % k] = kk
         if self.decide(kk.e < seq.len_e()):
             v = seq.get(kk.e)
             if seq.kind == "bytes" and isinstance(v, SInt):
@@ -801,7 +815,7 @@ class Interp(Engine):
             except BreakEx:
                 return
             nk = shared.pos if shared is not None else SInt(kk.e + 1)
-            self.prove(call_by_names(spec.invariant, self.inv_env(f, {"_k": nk})), "loop%d-preserve" % k, ln)
+            self.prove(call_by_names(spec.invariant, self.inv_env(f, {"_k": nk})), "loop%s-preserve" % k, ln)
             raise PathEnd("loop body closed")
         else:
             self.exec_block(s.orelse, f)
@@ -964,7 +978,7 @@ class Interp(Engine):
             cls = base.obj.__dict__["_f"].get("__class__")
             mro = list(cls.__mro__)
             return self.class_attr(base.obj, cls, mro[mro.index(base.after) + 1:], name, node)
-        if isinstance(base, (HList, HSymList, HSetList, HIter, HMap, SSeq, SSet, BinStr, HFile, HRefTable, HSink)):
+        if isinstance(base, (HList, HSymList, HSetList, HIter, HMap, SSeq, SSet, BinStr, HFile, HRefTable, HSink, HAcc)):
             return BoundMethod(base, name)
         if isinstance(base, SEnum):
             return base.map(lambda t: getattr(t, name)).collapse()
@@ -1405,6 +1419,12 @@ class Interp(Engine):
         vals = self.bind_args(fn.node.args, fn.defaults, fn.kwdefaults, args, kwargs, node, fn.name)
         fr = Frame(fn.frame.globs, fn.frame, fn.name, fn.frame.modname)
         fr.vars.update(vals)
+        outer = getattr(fn.frame, "contract", None)
+        if outer is not None and any(isinstance(k, tuple) and k[0] == fn.name for k in outer.loops):
+            # loops of a nested function of the function under contract: specs keyed (function name, ordinal)
+            fr.contract = outer
+            fr.loops = extract.loops_of(fn.node)
+            fr.loop_prefix = fn.name
         return self.run_body(fn.node, fr, node)
 
     def run_body(self, fnode, fr, callnode):
@@ -1675,6 +1695,21 @@ class Interp(Engine):
             return getattr(dict, name)(recv, *args, **kwargs)
         if isinstance(recv, HFile):
             return self.file_method(recv, name, args, node)
+        if isinstance(recv, HAcc):
+            if name in ("extend", "append"):
+                v = args[0]
+                if name == "append":
+                    codes = [self.as_int(v, node)]
+                elif isinstance(v, HList):
+                    codes = [self.as_int(x, node) for x in v.items]
+                else:
+                    c = SChars.of(v)
+                    if c is None:
+                        raise Unsupported("extending a tracked byte string by %s" % type(v).__name__)
+                    codes = c.codes
+                recv.put(self, codes, lambda: self.inv_env(f, {}), getattr(node, "lineno", 0))
+                return None
+            raise Unsupported("method %s on a tracked byte string" % name)
         if isinstance(recv, HSink):
             if name in ("write", "append"):
                 if recv.closed:
@@ -2218,6 +2253,10 @@ def _m_chr(self, args, kwargs, node, f):
 
 @model(min, max)
 def _m_minmax(self, args, kwargs, node, f):
+    fn = max if (isinstance(node, ast.Call) and isinstance(node.func, ast.Name) and node.func.id == "max") else min
+    if len(args) == 2 and not kwargs and all(isinstance(a, (int, SInt)) and not isinstance(a, bool) for a in args):
+        a, b = _ie(args[0]), _ie(args[1])
+        return SInt(z3.If(a >= b, a, b) if fn is max else z3.If(a <= b, a, b))
     raise Unsupported("min/max with symbolic arguments")
 
 
@@ -2266,6 +2305,8 @@ def _m_bytes(self, args, kwargs, node, f):
     if not args:
         return b""
     v = args[0]
+    if isinstance(v, HAcc):
+        return v          # bytes(<tracked byte string>): the same ghost reader state
     if isinstance(v, SSeq):
         return SSeq(v.length, v.get, kind="bytes", base=v.base)
     if isinstance(v, HList):
